@@ -482,7 +482,9 @@ impl Melda {
         // Create initial revision
         let rev = Revision::new(
             1u32,
-            digest_object(&obj).expect("cannot_create_revision"),
+            // An object that carries the reserved identifier field (the shape `read` returns) or a
+            // malformed hash field is refused with an error
+            digest_object(&obj)?,
             None,
         );
         let mut data_w = self.data.write().expect("cannot_acquire_data_for_writing");
@@ -558,7 +560,9 @@ impl Melda {
                 // Now compute the digest to see if the object has changed
                 // An object can be None if its an "empty" delta array descriptor
                 if let Some(object) = object {
-                    let digest = digest_object(&object).unwrap(); // Digest of the current object
+                    // (an object that carries the reserved identifier field or a malformed hash field
+                    // is refused with an error; nothing has been changed yet)
+                    let digest = digest_object(&object)?; // Digest of the current object
                     // A non-empty delta array descriptor is always a change (two successive
                     // identical edit scripts have the same digest)
                     if is_array_descriptor(uuid) || digest.ne(winning_revision.digest()) {
